@@ -240,16 +240,23 @@ func raceAccessFrames(blk string) []string {
 		if j := strings.Index(sec, "\n\n"); j >= 0 {
 			sec = sec[:j]
 		}
+		// the deciding frame of an access is the innermost one that belongs
+		// to dials or to the harness (standard-library and third-party
+		// frames above it are skipped)
 		first := ""
+		innermost := ""
 		for _, m := range frameRe.FindAllStringSubmatch(sec, -1) {
 			fn := m[1]
-			if strings.HasPrefix(fn, "runtime.") || strings.HasPrefix(fn, "reflect.") || strings.HasPrefix(fn, "sync.") ||
-				strings.HasPrefix(fn, "sync/atomic.") || strings.HasPrefix(fn, "internal/") || strings.HasPrefix(fn, "strings.") ||
-				strings.HasPrefix(fn, "bytes.") || strings.HasPrefix(fn, "fmt.") || strings.HasPrefix(fn, "encoding/") || strings.HasPrefix(fn, "sort.") {
-				continue
+			if innermost == "" {
+				innermost = fn
 			}
-			first = fn
-			break
+			if strings.HasPrefix(fn, "github.com/vimeo/dials") || strings.HasPrefix(fn, "verifharness/") {
+				first = fn
+				break
+			}
+		}
+		if first == "" {
+			first = innermost
 		}
 		out = append(out, first)
 	}
